@@ -102,6 +102,10 @@ void Exec::end_of_history() {
 			}
 		}
 	}
+	// ... and a way of driving the library that, left alone under default limits, never arrives while another one does, disagrees too
+	for (auto &kv : stuck) { auto it = outcomes.find(kv.first); if (it == outcomes.end() || it->second.empty()) continue; const Outcome &d = it->second[0], &n = kv.second[0];
+		violate("C04", "config-disagree:non-definitive:" + n.how + "-" + status_name(n.status) + n.note + "/" + d.how + "-" + status_name(d.status),
+			strf("same LP, step %d [%s] reached %s, but step %d [%s], uninterrupted and under default limits, ended %s", d.step, d.config.c_str(), status_name(d.status).c_str(), n.step, n.config.c_str(), status_name(n.status).c_str())); }
 }
 
 void Exec::do_op() {
